@@ -40,10 +40,10 @@ Definition Rel (sc : sstate) (s : lstate) : Prop :=
   | LBuiltinOperator => m = MCode /\ a = WFree /\ p = false /\ l_buffer s = [] /\ In (l_prevrune s) opchars
   | LFreshAssignOrColon => m = MCode /\ a = WFree /\ p = false
   | LUnquote => m = MTilde /\ a = WFree /\ l_buffer s = []
-  | LFirstFwdSlash => m = MSlash /\ a = WFree /\ p = false
-  | LCommentLine => m = MLine /\ a = WFree /\ p = false
-  | LCommentBlock => m = MBlock /\ a = WBlock
-  | LCommentBlockAsterisk => m = MBlockStar /\ a = WBlock
+  | LFirstFwdSlash => m = MSlash /\ a = WFree /\ (match l_buffer s with [] => p = p' | _ => p = false end)
+  | LCommentLine => m = MLine /\ a = WFree /\ p = p'
+  | LCommentBlock => m = MBlock /\ a = WBlock /\ p = p'
+  | LCommentBlockAsterisk => m = MBlockStar /\ a = WBlock /\ p = p'
   | LBacktickString => m = MRaw /\ a = WRaw
   | LStrLit => m = MStr /\ a = WFree
   | LStrEscaped => m = MStrEsc /\ a = WFree
@@ -92,15 +92,16 @@ Proof.
     unfold scan_code; simpl. exists WFree, p', sg. split; [ds s; exact Htr|]. ds s; simpl. auto. }
   destruct (Z.eq_dec r 47) as [->|N47].
   { unfold lex_normal in H; simpl in H. inv_ok H.
-    unfold scan_code; simpl. exists WFree, p', sg. split; [ds s; exact Htr|]. ds s; simpl. auto. }
+    unfold scan_code; simpl. exists WFree, p', sg. split; [ds s; exact Htr|]. ds s; simpl in *. auto. }
   assert (forall c tok dd, r = c -> decode_brace c = tok -> tstep (d, WFree, false, false) tok = Some (dd, WFree, false, false) ->
           with_dump s (fun s1 => LOk (append_token (decode_brace r) s1)) = LOk s' ->
           Rel (MCode, dd, false) s') as Hbrace.
   { intros c tok dd -> Hc Hts Hw. unfold with_dump in Hw. destruct (dump_buffer s) as [s1|] eqn:D; [|discriminate]. inv_ok Hw.
     destruct (dump_tr _ _ _ _ _ D Htr) as (B1 & B2 & _ & p2 & sg2 & T2 & _).
     eapply (rel_normal_intro _ dd false false false); [ds s1; simpl in *; congruence| | |reflexivity].
-    - eapply tr_append; [exact T2|]. revert Hts. unfold tstep.
-      destruct (t_kind (decode_brace c)); intros Hts; inversion Hts; subst; try reflexivity; congruence.
+    - eapply tr_append; [exact T2|]. revert Hts. unfold tstep, decode_brace.
+      repeat match goal with |- context [if ?x then _ else _] => destruct x end; simpl;
+        intros Hts; inversion Hts; subst; reflexivity.
     - ds s1; simpl in *; subst. reflexivity. }
   destruct (Z.eq_dec r 40) as [E|N40]; [subst r; replace (scan_code d p 40) with (MCode, d + 1, false) by reflexivity; apply (Hbrace 40 _ (d + 1) eq_refl eq_refl eq_refl H)|].
   destruct (Z.eq_dec r 91) as [E|N91]; [subst r; replace (scan_code d p 91) with (MCode, d + 1, false) by reflexivity; apply (Hbrace 91 _ (d + 1) eq_refl eq_refl eq_refl H)|].
@@ -263,7 +264,7 @@ Proof.
   - (* normal *) destruct Hm as (-> & -> & Hp). simpl. eapply sim_normal; eauto.
   - (* comment line *) destruct Hm as (-> & -> & ->). simpl.
     destruct (r =? 10).
-    + inv_ok H. eapply (rel_normal_intro _ d false false false); [destruct s1; reflexivity| | |reflexivity].
+    + inv_ok H. eapply (rel_normal_intro _ d p' p' false); [destruct s1; reflexivity| | |reflexivity].
       * eapply tr_append; [exact Htr|reflexivity].
       * destruct s1; reflexivity.
     + inv_ok H. exists WFree, p', sg. split; [destruct s1; exact Htr|]. destruct s1; simpl in *; subst. auto.
@@ -315,16 +316,18 @@ Proof.
         match type of H with lex_normal ?x r = _ => eapply (sim_normal x r s' d false p2 sg2) end;
           [destruct s2; destruct s1; simpl in *; exact B2|exact T2| |exact H].
         rewrite B1. destruct s1; simpl in P2. destruct l_buffer; simpl in P2; congruence.
-  - (* first slash *) destruct Hm as (-> & -> & ->). simpl.
+  - (* first slash *) destruct Hm as (-> & -> & Hp). simpl.
     unfold lex_firstslash, with_dump in H.
     destruct (r =? 47).
     + destruct (dump_buffer s1) as [s2|] eqn:D; [|discriminate]. inv_ok H.
-      destruct (dump_tr _ _ _ _ _ D Htr) as (B1 & B2 & _ & p2 & sg2 & T2 & _).
+      destruct (dump_tr _ _ _ _ _ D Htr) as (B1 & B2 & _ & p2 & sg2 & T2 & P2).
+      assert (p = p2) as -> by (destruct (l_buffer s1); congruence).
       exists WFree, p2, sg2. split; [destruct s2; exact T2|]. destruct s2; simpl. auto.
     + destruct (r =? 42).
       * destruct (dump_buffer s1) as [s2|] eqn:D; [|discriminate]. inv_ok H.
-        destruct (dump_tr _ _ _ _ _ D Htr) as (B1 & B2 & _ & p2 & sg2 & T2 & _).
-        exists WBlock, false, false. split.
+        destruct (dump_tr _ _ _ _ _ D Htr) as (B1 & B2 & _ & p2 & sg2 & T2 & P2).
+        assert (p = p2) as -> by (destruct (l_buffer s1); congruence).
+        exists WBlock, p2, false. split.
         -- eapply tr_append; [destruct s2; exact T2|reflexivity].
         -- destruct s2; simpl. auto.
       * destruct (dump_buffer _) as [s2|] eqn:D; [|discriminate].
@@ -332,15 +335,15 @@ Proof.
         destruct (dump_tr _ _ _ _ _ D Hn) as (B1 & B2 & B3 & p2 & sg2 & T2 & _).
         eapply sim_builtin; [exact T2|exact B1| |exact H].
         rewrite B3. destruct s1; simpl. auto 12.
-  - (* block comment *) destruct Hm as (-> & ->). simpl.
+  - (* block comment *) destruct Hm as (-> & -> & ->). simpl.
     destruct (r =? 10) eqn:E10.
-    + apply Z.eqb_eq in E10. subst r. simpl. inv_ok H. exists WBlock, false, false. split.
+    + apply Z.eqb_eq in E10. subst r. simpl. inv_ok H. exists WBlock, p', false. split.
       * eapply tr_append; [destruct s1; exact Htr|reflexivity].
       * destruct s1; simpl in *; subst. auto.
     + destruct (r =? 42); inv_ok H; exists WBlock, p', sg; (split; [destruct s1; exact Htr|destruct s1; simpl in *; subst; auto]).
-  - (* block comment, asterisk seen *) destruct Hm as (-> & ->). simpl.
+  - (* block comment, asterisk seen *) destruct Hm as (-> & -> & ->). simpl.
     destruct (r =? 47).
-    + inv_ok H. eapply (rel_normal_intro _ d false false false); [destruct s1; reflexivity| | |reflexivity].
+    + inv_ok H. eapply (rel_normal_intro _ d p' p' false); [destruct s1; reflexivity| | |reflexivity].
       * apply (tr_setter (append_token (mkTok TEndBlockComment []) (dump_as TComment (write_runes [42; 47] s1)))); [destruct s1; reflexivity|].
         eapply tr_append; [eapply tr_append; [destruct s1; exact Htr|reflexivity]|reflexivity].
       * destruct s1; reflexivity.
